@@ -5,7 +5,7 @@
    (Gen/NbConfig.v) and the proofs need its facts c_dict_strict = true, default predicate = strict_equals. *)
 From Coq Require Import List NArith.
 From NB Require Import Base.Res Base.Json Base.PyStr Diff.DiffFormat Diff.Patch Diff.GenericDiff Diff.Wf
-     Diff.StringProofs Diff.StringMaster Diff.MasterProofs Diff.SpecProofs Diff.C02Proofs Gen.NbConfig.
+     Diff.StringProofs Diff.StringMaster Diff.MasterProofs Diff.SpecProofs Diff.C02Proofs Diff.Codec Diff.CodecProofs Gen.NbConfig.
 Import ListNotations.
 
 (* patching a with diff(a, b) gives exactly b (strict JSON equality: bool/int/float distinct) *)
@@ -49,3 +49,13 @@ Theorem generic_diff_denotes_target_by_documented_meaning : forall O n a b,
   exists d, diff_default O generic_config n a b = Ok d /\ forall f, depth a < f -> check_diff f a b d = true.
 Proof. exact generic_diff_denotes_target. Qed.
 Print Assumptions generic_diff_denotes_target_by_documented_meaning.
+
+(* the JSON form in which the model's diff is compared with nbdime's (T1) is faithful: decoding what was
+   encoded gives the diff back, so equal JSON means equal diffs *)
+Theorem diff_json_form_faithful : forall d n, ddepth d < n -> dec_diff n (enc_diff d) = Some d.
+Proof. exact dec_enc_diff. Qed.
+Print Assumptions diff_json_form_faithful.
+
+Theorem diff_json_form_injective : forall d1 d2, enc_diff d1 = enc_diff d2 -> d1 = d2.
+Proof. exact enc_diff_inj. Qed.
+Print Assumptions diff_json_form_injective.
